@@ -4,25 +4,34 @@
 From C14 Require Import Base Model Spec.
 
 Inductive repform := AsNil | AsList | AsVec | AsStr.
+(* AsNil: like AsList, but an empty sequence is written nil (the Go nil) instead of '() *)
 Definition in_form (f : repform) (s : seqin) : seqin :=
-  match f with AsNil => SNil | AsList => SList (elems s) | AsVec => SVec (elems s) | AsStr => SStr (elems s) end.
+  match f with
+  | AsNil => match elems s with [] => SNil | l => SList l end
+  | AsList => SList (elems s) | AsVec => SVec (elems s) | AsStr => SStr (elems s)
+  end.
 Definition with_form (f : repform) (c : call) : call :=
   mkCall (c_fn c) (c_item c) (c_new c) (c_pred c) (in_form f (c_seq c)) (in_form f (c_seq2 c))
-         (c_start c) (c_end c) (c_start2 c) (c_end2 c) (c_key c) (c_test c) (c_count c) (c_from_end c).
+         (c_start c) (c_end c) (c_end_nil c) (c_start2 c) (c_end2 c) (c_key c) (c_test c) (c_count c) (c_from_end c)
+         (c_op c) (c_init c) (c_nseq c) (c_flag c).
 
 Definition case := (call * list (repform * res))%type.
 
 (* 0 ok.  1: M <> observed, but the observed result is still what S demands (or the call is outside
    the guard and the model did not meet S there either).  2: M <> observed and the observed result
-   differs from S, inside the guard or where the unchanged code met S: a failing input.
-   3: self-check: M = observed, inside the guard, but M <> S (the theorem would be false). *)
+   is not what S demands, inside the guard or where the unchanged code met S: a failing input; for
+   the functions without a model (sort, stable-sort): the observed result fails the verified checker
+   inside the guard.  3: self-check: M = observed, inside the guard, but M does not meet S (the
+   theorem would be false). *)
 Definition check_one (c : call) (o : repform * res) : N :=
   let c' := with_form (fst o) c in
-  let m := m_call c' in
-  let s := s_call c' in
   let dom := in_domain c' in
-  if res_eqb m (snd o) then (if dom && negb (res_eqb m s) then 3%N else 0%N)
-  else if (dom || res_eqb m s) && negb (res_eqb s (snd o)) then 2%N else 1%N.
+  match m_call c' with
+  | Some m =>
+      if res_eqb m (snd o) then (if dom && negb (spec_ok c' m) then 3%N else 0%N)
+      else if (dom || spec_ok c' m) && negb (spec_ok c' (snd o)) then 2%N else 1%N
+  | None => if dom && negb (spec_ok c' (snd o)) then 2%N else 0%N
+  end.
 Definition check_case (c : case) : N := fold_left (fun a o => N.max a (check_one (fst c) o)) (snd c) 0%N.
 
 Fixpoint check_all_from (i : N) (cs : list case) : list (N * N) :=
@@ -36,4 +45,4 @@ Definition guard_count (cs : list case) : N :=
   N.of_nat (fold_left (fun a c => (a + length (filter (fun o => in_domain (with_form (fst o) (fst c))) (snd c)))%nat) cs 0%nat).
 (* observations where the implementation (outside the guard) does not return what S demands *)
 Definition spec_misses (cs : list case) : N :=
-  N.of_nat (fold_left (fun a c => (a + length (filter (fun o => negb (res_eqb (s_call (with_form (fst o) (fst c))) (snd o))) (snd c)))%nat) cs 0%nat).
+  N.of_nat (fold_left (fun a c => (a + length (filter (fun o => negb (spec_ok (with_form (fst o) (fst c)) (snd o))) (snd c)))%nat) cs 0%nat).
